@@ -1,5 +1,5 @@
 \* generation run: prints one BEH line (abstract case + expected outcome + deviation alternatives)
-CONSTANTS Part = "name"
+CONSTANTS Part = "all"
 INIT Init
 NEXT Next
 INVARIANTS Emit
